@@ -14,7 +14,12 @@
 
 use std::f32::consts::PI;
 
+#[cfg(not(kani))]
 use anyhow::{format_err, Error};
+#[cfg(kani)]
+use crate::kani_models::Error;
+#[cfg(kani)]
+use crate::format_err;
 use log::{debug, info, warn};
 
 use crate::types::HasSurface;
@@ -653,5 +658,33 @@ fn position_to_name<'a>(position: Tilt) -> &'a str {
         Tilt::BOTTOM => "suelo",
         Tilt::TOP => "techo",
         Tilt::SIDE => "muro",
+    }
+}
+
+/// Puntos de acceso para verificación (no forman parte de la API pública)
+#[cfg(any(kani, verif_hooks))]
+impl Space {
+    pub fn verif_slab_d_t(&self, walls: &[Wall], db: &ConsDb) -> Option<f32> {
+        self.slab_d_t(walls, db)
+    }
+    pub fn verif_slab_psi_gnd_ext(&self, d_t: f32, model: &Model) -> f32 {
+        self.slab_psi_gnd_ext(d_t, model)
+    }
+    pub fn verif_ua_of_external_and_ground_surfaces(&self, model: &Model) -> f32 {
+        self.ua_of_external_and_ground_surfaces(model)
+    }
+}
+
+/// Puntos de acceso para verificación (no forman parte de la API pública)
+#[cfg(any(kani, verif_hooks))]
+impl Wall {
+    pub fn verif_u_value_gnd_top(&self, U_w: f32) -> f32 {
+        self.u_value_gnd_top(U_w)
+    }
+    pub fn verif_u_value_gnd_slab(&self, z: f32, d_t: f32, char_dim: f32, psi_gnd_ext: f32) -> f32 {
+        self.u_value_gnd_slab(z, d_t, char_dim, psi_gnd_ext)
+    }
+    pub fn verif_u_value_gnd_wall(&self, z: f32, U_w: f32, d_t: f32, space_height_net: f32) -> f32 {
+        self.u_value_gnd_wall(z, U_w, d_t, space_height_net)
     }
 }
